@@ -97,7 +97,17 @@ def one_case(arg):
         scopes = {}
         env = {"GIT_CONFIG_NOSYSTEM": "0"}
         # local
-        local = gen_entries(rng, rng.randint(1, 8), cli_safe)
+        local = gen_entries(rng, rng.randint(1, 8) if not cli_safe else rng.randint(4, 24), cli_safe)
+        if cli_safe and rng.random() < 0.7:
+            sub = rng.choice(SUBSECTIONS)
+            seq = [("refgroup", sub, "include", "refs/heads"), ("refgroup", sub, "exclude", "refs/heads/feature"),
+                   ("refgroup", sub, "include", "refs/heads/feature/a"), ("refgroup", sub, "exclude", "refs/heads/dev")]
+            for e in seq:
+                local.insert(rng.randint(0, len(local)), e)
+            # keep the relative order of the sequence: re-sort those four into sequence order at their positions
+            pos = sorted(i for i, e in enumerate(local) if e in seq)
+            for i, e in zip(pos, seq):
+                local[i] = e
         text_local = render(local)
         used = ["local"]
         if rng.random() < 0.4:
@@ -274,7 +284,7 @@ def run(chk, b, tier):
     sz = b.sizer()
     scratch = b.scratchdir()
     jobs = [(R.SEED, i, drv, sz, scratch) for i in range(n)]
-    res = R.pmap(one_case, jobs, chunksize=4)
+    res = R.pmap(one_case, jobs, chunksize=4, chk=chk)
     for r in res:
         chk.count(r["evals"])
         if r["discard"]:
